@@ -253,6 +253,55 @@ def observations(chk, seed, n):
                     chk.violation("C05/obs/raise", "CG(%s) raised %s: %s" % (label, type(e).__name__, str(e)[:150]), case)
 
 
+def tiny_diagonal(chk):
+    """[R+] well-conditioned Hermitian indefinite matrices whose (positive) diagonal is tiny next to the off-diagonal entries:
+    blocks [[d, 1], [1, d]] (real) and [[d, i], [-i, d]] (complex), d a negative power of two, after a symmetric permutation.
+    The exact solution is computed in rational arithmetic; every solver that documents this class must reproduce it. A solver
+    that treats "positive diagonal" as "positive definite" and stops pivoting loses all accuracy here."""
+    import pymoto as pym
+    from fractions import Fraction as Fr
+    S = pym.solvers
+    perm = [2, 0, 3, 1]
+    for e in (20, 40, 60):
+        d = Fr(1, 2 ** e)
+        for cplx in (False, True):
+            # one block: [[d, o], [conj(o), d]] with o = 1 or i; its inverse is [[d, -o], [-conj(o), d]] / (d^2 - 1)
+            o = 1j if cplx else 1.0
+            blk = np.array([[float(d), o], [np.conj(o), float(d)]])
+            A4 = np.zeros((4, 4), dtype=complex if cplx else float)
+            A4[:2, :2] = blk
+            A4[2:, 2:] = blk
+            A = A4[np.ix_(perm, perm)]
+            b4 = np.array([[1.0, 3.0], [-2.0, 1.0], [3.0, 0.0], [1.0, -1.0]])
+            den = float(d * d - 1)
+            inv_blk = np.array([[float(d), -o], [-np.conj(o), float(d)]]) / den
+            Ainv4 = np.zeros_like(A4)
+            Ainv4[:2, :2] = inv_blk
+            Ainv4[2:, 2:] = inv_blk
+            Ainv = Ainv4[np.ix_(perm, perm)]
+            b = b4[perm]
+            for label, make, sparse in (("SolverDenseLU", S.SolverDenseLU, False), ("SolverDenseQR", S.SolverDenseQR, False),
+                                        ("SolverDenseLDL", S.SolverDenseLDL, False), ("SolverSparseLU", S.SolverSparseLU, True),
+                                        ("auto(dense)", None, False), ("auto(sparse)", None, True)):
+                M = sps.csc_matrix(A) if sparse else A.copy()
+                case = {"tiny_diagonal": e, "complex": cplx, "solver": label}
+                chk.count()
+                try:
+                    with warnings.catch_warnings():
+                        warnings.simplefilter("ignore")
+                        sv = make() if make is not None else S.auto_determine_solver(M)
+                        sv.update(M)
+                        for trans in ("N", "T", "H"):
+                            Ai = {"N": Ainv, "T": Ainv.T, "H": Ainv.conj().T}[trans]
+                            x = np.asarray(sv.solve(b.copy(), trans=trans))
+                            if x.shape != b.shape or not columns_close(x, Ai @ b, 1e-9):
+                                chk.violation("C05/tiny-diagonal/" + label.split("(")[0], "%s trans=%s on a Hermitian matrix with diagonal 2^-%d: max error %.3g against the exact solution"
+                                              % (label, trans, e, float(np.abs(x - Ai @ b).max()) if x.shape == b.shape else float("nan")), case)
+                                break
+                except Exception as ex:
+                    chk.violation("C05/tiny-diagonal/raise", "%s raised %s: %s" % (label, type(ex).__name__, str(ex)[:120]), case)
+
+
 def multigrid_interpolation(chk, thorough):
     """growth beyond the listed clauses: the interpolation operator of GeometricMultigrid against Multigrid.tla"""
     import pymoto as pym
@@ -400,6 +449,9 @@ def solver_life(chk, thorough):
 
 
 def run(chk, replay=None):
+    if replay is not None and "tiny_diagonal" in replay:
+        tiny_diagonal(chk)
+        return
     if replay is not None and "life" in replay:
         res = replay_life(replay["pinfo"], replay["life"])
         chk.case({"life": replay["life"]})
@@ -441,5 +493,6 @@ def run(chk, replay=None):
                     if res:
                         chk.violation("C05/" + res[0], res[1], c)
     solver_life(chk, thorough)
+    tiny_diagonal(chk)
     multigrid_interpolation(chk, thorough)
     observations(chk, chk.seed + 2, 12 if thorough else 4)
